@@ -41,7 +41,8 @@ def random_ops(rng):
         elif r < 0.40:
             kind = rng.choice(["ok", "ok", "trunc", "trunc", "trunc", "err"])
             ops.append(["reply", rng.randrange(4), 0 if rng.random() < 0.1 else 1, "right" if rng.random() < 0.8 else "wrong",
-                        kind, rng.randint(1, 6) if kind == "err" else 0, 1 if rng.random() < 0.2 else 0])
+                        kind, rng.randint(1, 6) if kind == "err" else 0, 1 if rng.random() < 0.2 else 0,
+                        rng.randint(1, 3) if rng.random() < 0.1 else 0])
         elif r < 0.43:
             ops.append(["garbage", rng.randrange(4), 1, "right", "garbage", 0, 0])
         elif r < 0.70:
@@ -55,7 +56,7 @@ def random_ops(rng):
         else:
             kind = rng.choice(["ok", "ok", "ok", "trunc", "err", "err"])
             ops.append(["tcpreply", rng.randrange(3), rng.randrange(3), "right" if rng.random() < 0.8 else "wrong",
-                        kind, rng.randint(1, 6) if kind == "err" else 0])
+                        kind, rng.randint(1, 6) if kind == "err" else 0, rng.randint(1, 3) if rng.random() < 0.1 else 0])
     return ops
 
 
@@ -162,7 +163,7 @@ def run(ctx):
             if len([e for e in t["ev"] if e["e"] not in ("fire", "end")]) == len(ops):    # no op was inapplicable (= a shorter history)
                 traces.append(t)
     nshort = len(traces)
-    for _ in range(ctx.pick(1500, 40000)):
+    for _ in range(ctx.pick(1500, 20000)):
         cfg = {"ns": ctx.rng.choice([1, 2, 2, 3]), "T": ctx.rng.choice([[1], [1, 2], [1, 2, 4], [2, 1], [1, 1], [3]]),
                "idmax": ctx.rng.choice([3, 4, 6])}
         traces.append(A.run_history(cfg, random_ops(ctx.rng), rseed=ctx.rng.randrange(1 << 30)))
@@ -176,7 +177,7 @@ def run(ctx):
 
     # 3. the real shared DNSDatagramProtocol
     ptraces = []
-    for _ in range(ctx.pick(1500, 30000)):
+    for _ in range(ctx.pick(1500, 15000)):
         cfg = {"idmax": ctx.rng.choice([2, 3, 4])}
         ptraces.append(A.run_proto_history(cfg, random_proto_ops(ctx.rng, cfg["idmax"]), rseed=ctx.rng.randrange(1 << 30)))
     ctx.note_traces(ptraces)
